@@ -95,6 +95,14 @@ def split_certs(der):
 POST_MARK = bytes((i * 29 + 101) & 255 for i in range(48))          # recognisable plaintext of the post-handshake records below (C19 searches fd 1/2 for it)
 
 
+def degenerate_sig(deviation, sig):
+    """a possession proof that proves nothing: the signature field empty, a well-formed SEQUENCE of two zero INTEGERs, the genuine one cut to its first half"""
+    if "sig_empty" in deviation: return b""
+    if "sig_zero" in deviation: return derw.seq(derw.dint(0), derw.dint(0))
+    if "sig_half" in deviation: return sig[:len(sig) // 2]
+    return sig
+
+
 def post_hs(deviation):
     """(record / inner content type, payload) a peer sends right after the handshake when asked to: a protected record that is NOT application data"""
     if deviation == "post_hs_handshake":
@@ -166,13 +174,13 @@ def tlcp_client(sock, deviation, client_chain=b"", client_d=0, other_d=12345, pr
         p.send_hs(16, u16(len(ct)) + ct)
     else:
         p.send_hs(16, bytes([65]) + b"\x04" + sm2ref.i2b(cP[0]) + sm2ref.i2b(cP[1]))
-    if creq and deviation in ("honest", "cv_wrong_key", "cv_stale_transcript", "empty_cert_with_cv"):
-        d = client_d if deviation in ("honest", "cv_stale_transcript") else other_d
+    if creq and deviation in ("honest", "cv_wrong_key", "cv_stale_transcript", "empty_cert_with_cv", "cv_sig_empty", "cv_sig_zero", "cv_sig_half"):
+        d = client_d if deviation in ("honest", "cv_stale_transcript") or deviation.startswith("cv_sig_") else other_d
         P = sm2ref.mul(d, sm2ref.G)
         tr = pre_cke if deviation == "cv_stale_transcript" else p.transcript
         # TLCP signs the SM3 hash of the handshake messages, TLS 1.2 the messages themselves (both through SM2 with Z)
         r_, s_ = sm2ref.sign(d, P, sm3(tr) if tlcp else tr, 0x3333333333333333333333333333333333333333)
-        sig = derw.seq(derw.dint(r_), derw.dint(s_))
+        sig = degenerate_sig(deviation, derw.seq(derw.dint(r_), derw.dint(s_)))
         p.send_hs(15, u16(len(sig)) + sig)
     if deviation != "no_ccs":
         p.send_record(20, b"\x01")
@@ -288,13 +296,13 @@ def tls13_client(sock, deviation, client_chain=b"", client_d=0, other_d=12345, m
         lst = b"" if deviation.startswith("empty_cert") else b"".join(u24(len(c)) + c + u16(0) for c in chain)
         p.send_hs(11, b"\x00" + u24(len(lst)) + lst)
     pre = p.transcript
-    if creq and deviation in ("honest", "cv_wrong_key", "cv_stale_transcript", "empty_cert_with_cv", "cv_alg_other"):
-        d = client_d if deviation in ("honest", "cv_stale_transcript") else other_d
+    if creq and deviation in ("honest", "cv_wrong_key", "cv_stale_transcript", "empty_cert_with_cv", "cv_alg_other", "cv_sig_empty", "cv_sig_zero", "cv_sig_half"):
+        d = client_d if deviation in ("honest", "cv_stale_transcript") or deviation.startswith("cv_sig_") else other_d
         P = sm2ref.mul(d, sm2ref.G)
         tr = p.transcript[:-10] if deviation == "cv_stale_transcript" else p.transcript
         tbs = b"\x20" * 64 + b"TLS 1.3, client CertificateVerify\x00" + sm3(tr)
         r_, s_ = sm2ref.sign(d, P, tbs, 0x3333333333333333333333333333333333333333, TLS13_ID)
-        sig = derw.seq(derw.dint(r_), derw.dint(s_))
+        sig = degenerate_sig(deviation, derw.seq(derw.dint(r_), derw.dint(s_)))
         p.send_hs(15, u16(0x0403 if deviation == "cv_alg_other" else 0x0708) + u16(len(sig)) + sig)
     fk = xlabel(chs, b"finished", b"", 32)
     vd = K.hmac(T, "sm3", fk, sm3(p.transcript))
@@ -349,7 +357,7 @@ def cbc_server(sock, proto, deviation, chain_der, sign_d, enc_d=0, other_d=54321
         params = b"\x03" + u16(41) + bytes([65]) + b"\x04" + sm2ref.i2b(sP[0]) + sm2ref.i2b(sP[1])
         tbs = cr + srandom + params
     r_, s_ = sm2ref.sign(d, P, tbs, 0x4444444444444444444444444444444444444444)
-    sig = derw.seq(derw.dint(r_), derw.dint(s_))
+    sig = degenerate_sig(deviation, derw.seq(derw.dint(r_), derw.dint(s_)))
     if deviation != "no_ske":
         p.send_hs(12, (u16(len(sig)) + sig) if tlcp else (params + u16(0x0403 if "ske_alg_other" in deviation else 0x0708) + u16(len(sig)) + sig))
     p.send_hs(14, b"")
@@ -435,7 +443,7 @@ def tls13_server(sock, deviation, chain_der, sign_d, other_d=54321, mut=None):
         tr = p.transcript[:-7] if deviation == "cv_stale_transcript" else p.transcript
         ctx = b"TLS 1.3, client CertificateVerify\x00" if deviation == "cv_client_context" else b"TLS 1.3, server CertificateVerify\x00"
         r_, s_ = sm2ref.sign(d, P, b"\x20" * 64 + ctx + sm3(tr), 0x4444444444444444444444444444444444444444, TLS13_ID)
-        sig = derw.seq(derw.dint(r_), derw.dint(s_))
+        sig = degenerate_sig(deviation, derw.seq(derw.dint(r_), derw.dint(s_)))
         p.send_hs(15, u16(0x0403 if deviation == "cv_alg_other" else 0x0708) + u16(len(sig)) + sig)
     fk = xlabel(shs, b"finished", b"", 32)
     vd = K.hmac(T, "sm3", fk, sm3(p.transcript))
